@@ -7,7 +7,8 @@ import MdsVerif.Spec.Subseq
 Driver streams `C12.lcs` (`slice.LCS`, `slice.LCSFunc` with equality modulo `k`) and `C12.lis`
 (`slice.LIS/LISFunc/LNDS/LNDSFunc` with natural, reversed and coarse comparisons).
 
-Op lines: `reset [L R]`, `l v…`, `r v…`, `lcs`, `lcsf k` — and for `C12.lis`: `reset [V]`, `v x…`,
+Op lines: `reset [L R]`, `l v…`, `r v…`, `lcs`, `lcsf k`, `lcst ty [k]` (the same calls at the element type `ty`
+of `Drv.C11.atType`) — and for `C12.lis`: `reset [V]`, `v x…`,
 `lis mode`, `lnds mode` with `mode ∈ nat, rev, half, revhalf, diff (a-b), rdiff2 (2*(b-a))` (`half` compares `x/2`: a total
 preorder with ties between different values).
 
@@ -18,7 +19,7 @@ also the returned VALUES (they must come, in order, from the argument `Subseq.lc
 -/
 namespace MdsVerif.Drv.C12
 open MdsVerif.Drv MdsVerif.Model.Edit MdsVerif.Model.Lis MdsVerif.Spec
-open MdsVerif.Drv.C11 (S parseCsv afterKey)
+open MdsVerif.Drv.C11 (S parseCsv afterKey atType knownType)
 
 def resField (obs : String) : List Int :=
   parseIntList ((afterKey obs "res=").splitOn "]" |>.headD "")
@@ -47,12 +48,13 @@ def specLcsOn (lhs rhs : List Int) (k : Nat) (impl : String) : String :=
 def specLcs (s : S) (k : Nat) (impl : String) : String := specLcsOn s.lhs s.rhs k impl
 
 def stepLcs (s : S) (toks : List String) (impl : String) : S × String × String :=
-  let call (k : Nat) : S × String × String :=
+  let callOn (lhs rhs : List Int) (k : Nat) : S × String × String :=
     let eq : Int → Int → Bool :=
       if k = 0 then fun a b => decide (a = b) else fun a b => decide (a % (k : Int) = b % (k : Int))
-    match lcsFunc? eq s.lhs s.rhs with
-    | some r => (s, s!"res={fmtInts r} nil={fmtBool (lcsIsNil s.lhs s.rhs)} mod=F", specLcs s k impl)
-    | none => (s, "panic:index", specLcs s k impl)
+    match lcsFunc? eq lhs rhs with
+    | some r => (s, s!"res={fmtInts r} nil={fmtBool (lcsIsNil lhs rhs)} mod=F", specLcsOn lhs rhs k impl)
+    | none => (s, "panic:index", specLcsOn lhs rhs k impl)
+  let call (k : Nat) : S × String × String := callOn s.lhs s.rhs k
   match toks with
   | ["reset"] => ({}, "ok", "-")
   | ["reset", l, r] => ({ lhs := parseCsv l, rhs := parseCsv r }, "ok", "-")
@@ -63,6 +65,9 @@ def stepLcs (s : S) (toks : List String) (impl : String) : S × String × String
   | ["rotl", k] => let s' := { s with lhs := MdsVerif.Drv.C11.rotR s.lhs (k.toNat?.getD 0) }; (s', s!"l={s'.lhs.length}", "-")
   | ["lcs"] => call 0
   | ["lcsf", k] => call (k.toNat?.getD 0)
+  | ["lcst", ty] => if knownType ty then callOn (atType ty s.lhs) (atType ty s.rhs) 0 else (s, "bad-op", "bad bad-op")
+  | ["lcst", ty, k] =>
+    if knownType ty then callOn (atType ty s.lhs) (atType ty s.rhs) (k.toNat?.getD 0) else (s, "bad-op", "bad bad-op")
   | ["lcsview", a, b] =>
     -- the two arguments are the prefixes lhs[:a] and lhs[:b] (in Go: views of one backing array)
     let l := s.lhs.take (a.toNat?.getD 0)
